@@ -496,7 +496,7 @@ def b_shard(tier, sh):
     """One shard = every history that starts with one given first operation (its own visited set: states reached from
     different first operations are explored again, which costs time, not coverage)."""
     st = runner.Stats()
-    # sh[1]: 0 = the whole menu (depth 3 quick / 4 thorough), 1 = the core menu -- five methods, no fill -- to depth 5
+    # sh[1]: 0 = the whole menu (depth 3 quick / 4 thorough); 1 = a reduced menu (five methods, no fill), kept for experiments
     core = len(sh) > 1 and sh[1] == 1
     _MENU['methods'], _MENU['fill'] = (CORE_METHODS, False) if core else (METHODS, True)
     depth = 5 if core else (3 if tier == 'quick' else 4)
@@ -536,11 +536,7 @@ def run(tier, seed):
     fs = c12.functions(tier)
     nops = len(ops(World()))
     shards = [('B', k, 0) for k in range(-1, nops)] + [('A', i, min(len(fs), i + 4)) for i in range(0, len(fs), 4)]
-    if tier == 'thorough':
-        _MENU['methods'], _MENU['fill'] = CORE_METHODS, False
-        ncore = len(ops(World()))
-        _MENU['methods'], _MENU['fill'] = METHODS, True
-        shards = [('B', k, 1) for k in range(ncore)] + shards
+
     st = runner.run_shards(__name__, 'shard', tier, shards, seed)
     st.c['history_depth'] = max([d for d in st.notes if isinstance(d, int)] or [0])
     st.notes = []
@@ -562,7 +558,7 @@ def run(tier, seed):
         'bound': 'part A: functions as C12; steps: one kwoargs name, one posoargs name, autokwoargs, annotate in 3 forms; part B: '
                  '%s; 8 decorated methods, 2 equal-comparing falsy instances + subclass' % (
                      'depth 3 over the whole operation menu (quick)' if tier == 'quick' else
-                     'depth 4 over the whole operation menu and depth 5 over the core menu (five methods, no fill operation)'),
+                     'depth 4 over the whole operation menu (thorough)'),
     }
     assumptions = [
         'an application order in which some step raises ValueError is not admissible and is not compared',
